@@ -1065,6 +1065,13 @@ def rand_c15(seed, tier, cases=None):
     for kind, pk, shape in (("h264", "h264", "h264_slice"), ("av1", "av1", "obu_frame_only")):
         out.append(dict(fam="C15", kind=kind, a=dict(src="feed", feed=dict(pkind=pk, shape=shape, len=4300000, salt=1, mtu=1200)), mask=-1, garbage=[], after=[],
                         b=dict(src="feed", feed=dict(pkind=pk, shape=shape, len=3000, salt=2, mtu=1200)), wellformed_b=True, **{"class": kind + "_huge_abandoned_unit"}))
+        out.append(dict(fam="C15", kind=kind, a=dict(src="feed", feed=dict(pkind=pk, shape=shape, len=17000000, salt=1, mtu=65535)), mask=-1, garbage=[], after=[],
+                        b=dict(src="feed", feed=dict(pkind=pk, shape=shape, len=3000, salt=2, mtu=1200)), wellformed_b=True, **{"class": kind + "_huge_abandoned_unit"}))
+    # the bytes retained from an abandoned unit end just below a power of two (2^20 .. 2^26: 16 .. 1024 fragments of 65533 bytes
+    # delivered, the small last one lost) and the next frame opens with a 65533-byte start fragment
+    for n in ((20, 22, 24) if tier == "quick" else (20, 21, 22, 23, 24, 25, 26)):
+        out.append(dict(fam="C15", kind="h264", a=dict(src="feed", feed=dict(pkind="h264", shape="h264_slice", len=(1 << (n - 16)) * 65533 + 101, salt=1, mtu=65535)), mask=-1, garbage=[], after=[],
+                        b=dict(src="feed", feed=dict(pkind="h264", shape="h264_slice", len=70000, salt=2, mtu=65535)), wellformed_b=True, **{"class": "h264_retained_just_below_2_%d" % n}))
     return out
 
 
@@ -1207,9 +1214,15 @@ def _obu_stream(obus, pad=0):
                 if n:
                     out.append(b | 0x80)
                 else:
-                    if pad:
+                    used = 1
+                    m = len(o["payload"]) >> 7
+                    while m:
+                        used += 1
+                        m >>= 7
+                    eff = min(pad, 8 - used)          # leb128() values occupy at most 8 bytes
+                    if eff > 0:
                         out.append(b | 0x80)
-                        out += [0x80] * (pad - 1) + [0x00]
+                        out += [0x80] * (eff - 1) + [0x00]
                     else:
                         out.append(b)
                     break
@@ -1238,13 +1251,18 @@ def rand_c13(seed, tier, cases=None):
             obus[-1]["hassize"] = False
         out.append(dict(fam="C13", kind="payload", valid=True, mtu=mtu, obus=obus, stream=_obu_stream(obus), **{"class": "rand_obus"}))
         if _ % 10 == 0 and all(o["hassize"] for o in obus):
-            out.append(dict(fam="C13", kind="payload", valid=True, mtu=mtu, obus=obus, stream=_obu_stream(obus, pad=1 + _ % 3), **{"class": "rand_obus_padded_size_field"}))
+            out.append(dict(fam="C13", kind="payload", valid=True, mtu=mtu, obus=obus, stream=_obu_stream(obus, pad=1 + (_ // 10) % 7), **{"class": "rand_obus_padded_size_field"}))
     # an OBU cut into 600+ packets, and 40 OBUs in one call
     many = [dict(type=6, ext=False, tid=0, sid=0, r3=0, r1=0, hassize=True, payload=[(i * 7) % 251 for i in range(5000)]),
             dict(type=6, ext=False, tid=0, sid=0, r3=0, r1=0, hassize=True, payload=[1, 2, 3])]
     out.append(dict(fam="C13", kind="payload", valid=True, mtu=10, obus=many, stream=_obu_stream(many), **{"class": "many_fragments"}))
     lots = [dict(type=6 if i else 1, ext=i % 9 == 8, tid=0, sid=0, r3=0, r1=0, hassize=True, payload=[(i + k) % 251 for k in range(1 + (i * 5) % 40)]) for i in range(40)]
     out.append(dict(fam="C13", kind="payload", valid=True, mtu=64, obus=lots, stream=_obu_stream(lots), **{"class": "many_obus"}))
+    # an OBU just beyond the 2^21 boundary of LEB128 (its size field needs four bytes; one event of 40 MB)
+    if True:
+        huge = [dict(type=6, ext=False, tid=0, sid=0, r3=0, r1=0, hassize=True, payload=[(i * 7) % 251 for i in range(2097160)]),
+                dict(type=6, ext=False, tid=0, sid=0, r3=0, r1=0, hassize=True, payload=[1, 2, 3])]
+        out.append(dict(fam="C13", kind="payload", valid=True, mtu=65535, obus=huge, stream=_obu_stream(huge), **{"class": "obu_beyond_2_21"}))
     # more than 256 elements in ONE packet (W = 0), after a fragmented OBU and from a fresh packet
     tiny = [dict(type=6, ext=False, tid=0, sid=0, r3=0, r1=0, hassize=True, payload=[1 + i % 250]) for i in range(300)]
     for head in ([many[0]], []):
